@@ -474,10 +474,21 @@ def binop(ctx):
         ctx.violation("R20.4", "apply_bin_op:shape", f["span"], "UNRECOGNISED: operand entry vectors (locals bound to a.entries / b.entries) not found")
         return
 
+    # `let (a_common, a_rest) = a.into_iter().partition(|e| shared.contains(&e.guard))`: both halves still belong to that operand
+    part_common, part_rest, part_pred = {}, {}, {}
+    for n in ix.nodes:
+        if n.get("k") == "let" and "init" in n and n["pat"].get("k") == "ptuple" and len(n["pat"]["subs"]) == 2:
+            b_, ms_ = chain(n["init"])
+            if [m_[0] for m_ in ms_] in (["into_iter", "partition"], ["drain", "partition"]) and peel(b_).get("k") == "local":
+                side0 = next((k_ for k_, v_ in ab.items() if canon(peel(b_)["id"]) == canon(v_)), None)
+                b0, b1 = binding_of_pat(n["pat"]["subs"][0]), binding_of_pat(n["pat"]["subs"][1])
+                if side0 and b0 and b1:
+                    part_common[side0], part_rest[side0], part_pred[side0] = b0[1], b1[1], ms_[-1][1][0]
+
     def side_of(e):
         e = peel(e)
         if e.get("k") == "local":
-            for k_, v_ in ab.items():
+            for k_, v_ in list(ab.items()) + list(part_common.items()) + list(part_rest.items()):
                 if canon(e["id"]) == canon(v_):
                     return k_
         return None
@@ -505,6 +516,24 @@ def binop(ctx):
             good = bool(arg) and arg[1] is not None and canon(arg[1]) == canon(pb[0][1]) and arg[2] == ["guard"]
             shared.add(canon(mem[0]["id"]))
         okr = okr and good
+    if not retains and set(part_pred) == {"a", "b"}:
+        # the partition form: the entries with a shared guard are split off both operands, the rest is what the cross product sees
+        okr, sides = True, ["a", "b"]
+        for sd_, pr_ in part_pred.items():
+            cl = resolve(pr_)
+            pb = pat_bindings(cl["params"][0]) if cl.get("k") == "closure" and cl.get("params") else []
+            body = resolve(norm_.tail_value(cl.get("body", {})))
+            mem = None
+            if body.get("k") == "mcall" and body["name"] == "contains" and peel(body["recv"]).get("k") == "local":
+                mem = (peel(body["recv"]), body["args"][0])
+            elif body.get("k") == "mcall" and body["name"] == "is_ok" and peel(body["recv"]).get("k") == "mcall" and peel(body["recv"])["name"] == "binary_search" and peel(peel(body["recv"])["recv"]).get("k") == "local":
+                mem = (peel(peel(body["recv"])["recv"]), peel(body["recv"])["args"][0])
+            good = False
+            if len(pb) == 1 and mem is not None:
+                arg = field_path(resolve(mem[1]))
+                good = bool(arg) and arg[1] is not None and canon(arg[1]) == canon(pb[0][1]) and arg[2] == ["guard"]
+                shared.add(canon(mem[0]["id"]))
+            okr = okr and good
     okr = okr and len(shared) == 1
     ctx.inst("R20.4", "apply_bin_op:fast-path-removes-from-both", okr, f["span"], "after the common-guard fast path the processed entries must be removed from BOTH operands (found retain on %s)" % sides, sample=sides)
     # the fast path entry: for every shared guard g one entry {g, op(ec, a's value at g, b's value at g)}
@@ -583,6 +612,10 @@ def binop(ctx):
         if okx:
             so, si = side_of(chain(outer["src"])[0]), side_of(chain(inner["src"])[0])
             okx = {so, si} == {"a", "b"} and not D.source(outer["src"])[1] and not D.source(inner["src"])[1]
+            if okx and part_rest:
+                # with the partition form the loops must run over the remaining halves
+                ids_ = {canon(local_id(chain(outer["src"])[0]) or -1), canon(local_id(chain(inner["src"])[0]) or -1)}
+                okx = ids_ == {canon(v_) for v_ in part_rest.values()}
             why = "the nested loops run over %s and %s" % (so, si)
         if okx:
             xb, yb = pat_bindings(outer["pat"]), pat_bindings(inner["pat"])
